@@ -43,6 +43,8 @@ func init() {
 type gPlan struct {
 	Op  string `json:"op"` // select | evaluate | compile | interleave
 	Ctx int    `json:"ctx"`
+	// Plain: this goroutine uses the navigator without the optional NamespaceURL() method
+	Plain bool `json:"plain,omitempty"`
 }
 
 func planOf(l *harness.Live) (plans []gPlan, reps int) {
@@ -109,10 +111,11 @@ func raceLogTail() string {
 
 func runPlan(e *xpath.Expr, text string, l *harness.Live, p gPlan) string {
 	d := l.Doc
+	flav := flavourFor(l, p.Plain)
 	ctx := d.Nodes[p.Ctx%len(d.Nodes)]
 	switch p.Op {
 	case "select":
-		obs, _ := observe(e, d, l.Flavour, ctx, action{Op: "select"})
+		obs, _ := observe(e, d, flav, ctx, action{Op: "select"})
 		return obs
 	case "compile":
 		var e2 *xpath.Expr
@@ -123,12 +126,16 @@ func runPlan(e *xpath.Expr, text string, l *harness.Live, p gPlan) string {
 					err = fmt.Errorf("panic: %v", r)
 				}
 			}()
-			e2, err = xpath.Compile(text)
+			if l.HasNS {
+				e2, err = xpath.CompileWithNS(text, l.NSMap)
+			} else {
+				e2, err = xpath.Compile(text)
+			}
 		}()
 		if err != nil || e2 == nil {
 			return "compile error: " + fmt.Sprint(err)
 		}
-		obs, _ := observe(e2, d, l.Flavour, ctx, action{Op: "evaluate"})
+		obs, _ := observe(e2, d, flav, ctx, action{Op: "evaluate"})
 		return obs
 	case "interleave":
 		// two live iterators of the shared expression advanced alternately
@@ -140,8 +147,8 @@ func runPlan(e *xpath.Expr, text string, l *harness.Live, p gPlan) string {
 					panicked = "panic: " + fmt.Sprint(r)
 				}
 			}()
-			a := e.Select(d.Nav(l.Flavour, ctx, &xdoc.Budget{Limit: 3000000}))
-			b := e.Select(d.Nav(l.Flavour, ctx, &xdoc.Budget{Limit: 3000000}))
+			a := e.Select(d.Nav(flav, ctx, &xdoc.Budget{Limit: 3000000}))
+			b := e.Select(d.Nav(flav, ctx, &xdoc.Budget{Limit: 3000000}))
 			for i := 0; i < 2000; i++ {
 				ma, mb := a.MoveNext(), b.MoveNext()
 				if ma != mb {
@@ -164,7 +171,7 @@ func runPlan(e *xpath.Expr, text string, l *harness.Live, p gPlan) string {
 		}
 		return fmt.Sprint("nodes", out)
 	default:
-		obs, _ := observe(e, d, l.Flavour, ctx, action{Op: "evaluate"})
+		obs, _ := observe(e, d, flav, ctx, action{Op: "evaluate"})
 		return obs
 	}
 }
@@ -190,7 +197,7 @@ func oracleC05(l *harness.Live) (c05Info, *harness.Failure) {
 		}
 		if p.Op == "interleave" {
 			// expectation: the plain sequence
-			obs, _ := observe(fresh, l.Doc, l.Flavour, l.Doc.Nodes[p.Ctx%len(l.Doc.Nodes)], action{Op: "select"})
+			obs, _ := observe(fresh, l.Doc, flavourFor(l, p.Plain), l.Doc.Nodes[p.Ctx%len(l.Doc.Nodes)], action{Op: "select"})
 			want[i] = obs
 			continue
 		}
@@ -264,11 +271,25 @@ func TestC05Rapid(t *testing.T) {
 	}
 	journal := harness.OpenJournal()
 	runRapid(t, uC05, func(rt *rapid.T) {
-		shapedOpts, _ := xgen.Shaped(rt, xgen.DefaultDoc())
+		base := xgen.DefaultDoc()
+		// one case in six: prefixes and namespaces in the document, prefixed name tests, a
+		// namespace map, and the goroutines divided between the two navigator flavours
+		nsMode := rapid.IntRange(0, 5).Draw(rt, "nsmode") == 5
+		var nsmap map[string]string
+		if nsMode {
+			base.ElNames = xgen.ElNames2
+			base.NS = &xgen.NSOpts{Prefixes: []string{"", "p", "q", "r"}, URIs: []string{"", "u1", "u2"}}
+			nsmap = map[string]string{"p": rapid.SampledFrom([]string{"u1", "u2"}).Draw(rt, "bind-p"), "q": rapid.SampledFrom([]string{"u1", "u2"}).Draw(rt, "bind-q")}
+		}
+		shapedOpts, _ := xgen.Shaped(rt, base)
 		doc := xgen.Doc(rt, shapedOpts)
 		ctx := xgen.Context(rt, doc, 4)
 		g := xgen.NewG(rt, doc)
 		g.ExtraFuncs = true
+		if nsMode {
+			g.ElNames = xgen.ElNames2
+			g.Prefixes = []string{"p", "q"}
+		}
 		var e xast.Expr
 		nodeSet := false
 		alone := "" // for regex calls on literals: the value computed independently of the engine
@@ -350,6 +371,9 @@ func TestC05Rapid(t *testing.T) {
 			if rapid.IntRange(0, 9).Draw(rt, "gsame") < 5 {
 				plans[i].Ctx = ctx.ID
 			}
+			if nsMode {
+				plans[i].Plain = rapid.Bool().Draw(rt, "plainnav")
+			}
 		}
 		reps := rapid.IntRange(3, 20).Draw(rt, "reps")
 		l := &harness.Live{Property: "C05", Check: "C05/concurrent", Doc: doc, Ctx: ctx, AST: e, Expr: xast.Render(e), Flavour: flavourOf(rt),
@@ -357,7 +381,10 @@ func TestC05Rapid(t *testing.T) {
 		if alone != "" {
 			l.Params["alone"] = alone
 		}
-		if _, err, _ := harness.Compile(l.Expr, nil, false); err != nil {
+		if nsMode {
+			l.Flavour, l.HasNS, l.NSMap = xdoc.NS, true, nsmap
+		}
+		if _, err, _ := harness.Compile(l.Expr, l.NSMap, l.HasNS); err != nil {
 			uC05.Skip()
 			return
 		}
